@@ -514,7 +514,7 @@ func (ctx *Ctx) rloop(path []byte, node *node, tpl *Tpl, w io.Writer) {
 			}
 			// Mark RL as inuse and loop over var using inspector.
 			rl.stat = rlInuse
-			ctx.Err = v.ins.Loop(v.val, rl, &ctx.buf, ctx.bufS[1:]...)
+			ctx.Err = v.ins.Loop(v.val, rl, &rl.buf, ctx.bufS[1:]...)
 
 			// Check for-else condition.
 			if rl.c == 0 && len(node.child) > 1 && node.child[1].typ == typeCondFalse {
